@@ -194,3 +194,95 @@ func H_two_fold() {
 	symx.Assert(match, "fold: results equal those of some sequential order of the same calls")
 	symx.Reach("end")
 }
+
+// H_two_autoload: two goroutines resolve classes that have to be loaded from files (virtual file
+// system) on one VM at the same time. Whatever the interleaving, a class that exists as a file is
+// found by both, as in either sequential order, and the registries stay race free.
+func H_two_autoload() {
+	root := symx.VRoot()
+	defer symx.VCleanup()
+	symx.VFile(root+"/app/Foo.php", "<?php\nnamespace App;\nclass Foo { public $v = 1; }\n")
+	symx.VFile(root+"/app/Bar.php", "<?php\nnamespace App;\nclass Bar { public $w = 2; }\n")
+	names := []string{"App\\Foo", "App\\Bar"}
+	sel := [2]int{symx.Choose("n0", 2), symx.Choose("n1", 2)}
+	ops := [2]int{symx.Choose("op0", 2), symx.Choose("op1", 2)} // 0 GetOrLoadClass, 1 LoadPkg
+	vm := runtime.NewVM(parser.NewParser())
+	vm.SetThrowControl(func(acl data.Control) {})
+	vm.AddNamespace("App", root+"/app")
+	for _, m := range vm.(*runtime.VM).VerifRegistryMaps() {
+		symx.SharedMap(m)
+	}
+	var wg sync.WaitGroup
+	res := [2]int{}
+	wg.Add(2)
+	for t := 0; t < 2; t++ {
+		t := t
+		go func() {
+			if ops[t] == 0 {
+				c, ctl := vm.GetOrLoadClass(names[sel[t]])
+				if ctl == nil && c != nil {
+					res[t] = 1
+				}
+			} else {
+				c, ctl := vm.LoadPkg(names[sel[t]])
+				if ctl == nil && c != nil {
+					res[t] = 1
+				}
+			}
+			wg.Done()
+		}()
+	}
+	wg.Wait()
+	symx.AssertKnown(res[0] == 1 && res[1] == 1, "autoload: a class that exists as a file is resolved by both concurrent callers", sel[0] == sel[1], "C10-concurrent-autoload-same-file")
+	_, ok := vm.GetClass(names[sel[0]])
+	symx.Assert(ok, "autoload: the class is registered afterwards")
+	symx.Reach("end")
+}
+
+// N_autoload_same_file is the native confirmation twin of C10-concurrent-autoload-same-file (run
+// natively only): four goroutines load the same class file on a fresh VM, repeated over many
+// rounds with a class body large enough for the loads to overlap; a failed load is the finding.
+func N_autoload_same_file() {
+	root := symx.VRoot()
+	defer symx.VCleanup()
+	body := "<?php\nnamespace App;\nclass Foo {\n"
+	for i := 0; i < 300; i++ {
+		body += "  public function m" + itoa(i) + "($a, $b) { if ($a > $b) { return $a - $b; } return $a + $b * " + itoa(i) + "; }\n"
+	}
+	body += "}\n"
+	symx.VFile(root+"/app/Foo.php", body)
+	failed := 0
+	for round := 0; round < 40; round++ {
+		vm := runtime.NewVM(parser.NewParser())
+		vm.SetThrowControl(func(acl data.Control) {})
+		vm.AddNamespace("App", root+"/app")
+		var wg sync.WaitGroup
+		var mu sync.Mutex
+		for g := 0; g < 4; g++ {
+			wg.Add(1)
+			go func() {
+				defer wg.Done()
+				c, ctl := vm.GetOrLoadClass("App\\Foo")
+				if ctl != nil || c == nil {
+					mu.Lock()
+					failed++
+					mu.Unlock()
+				}
+			}()
+		}
+		wg.Wait()
+	}
+	symx.Assert(failed == 0, "native twin: every concurrent load of an existing class file succeeds")
+}
+
+func itoa(x int) string {
+	if x == 0 {
+		return "0"
+	}
+	out := ""
+	for x > 0 {
+		out = string(rune('0'+x%10)) + out
+		x /= 10
+	}
+	return out
+}
